@@ -248,8 +248,13 @@ func main() {
 					}
 					blockchain.SortBlockByHeightAsc(tb)
 					okAll := true
+					mine := map[string]bool{}
+					for _, b := range blocks {
+						mine[string(b.Header.ID)] = true
+					}
 					for _, b := range tb {
-						if b.Header.Height <= a.Tip().Header.Height {
+						// only the blocks removed in this round (older rounds may have left stale temp blocks)
+						if b.Header.Height <= a.Tip().Header.Height || !mine[string(b.Header.ID)] {
 							continue
 						}
 						if err := a.Exec.VerifProcessValidated(context.Background(), b, false, true); err != nil {
@@ -306,8 +311,11 @@ func main() {
 				if !bytes.Equal(da.tipID, dt.tipID) || da.app != dt.app {
 					k.Violation("twin:tip-or-application-differs", "reorged node and twin disagree on tip or application state", nil)
 				}
-				// clear temp blocks so that the next round starts clean
-				a.Chain.DataAccess().ClearTempBlocks()
+				// sometimes leave stale temp blocks behind (a sync that failed half-way does): a
+				// later removal with saveTemp must still store the block it removes
+				if r.Intn(2) == 0 {
+					a.Chain.DataAccess().ClearTempBlocks()
+				}
 			}
 			k.Sample(map[string]any{"validators": len(g.Members), "prefix_blocks": pre, "rounds": rounds, "tip": a.Tip().Header.Height, "finalized": a.Finalized()})
 		})
